@@ -873,6 +873,7 @@ SPECS["C05"]["level_text"] += (' Run level: a whole Op history (whose backfill t
 _HC3_DEC = [
     "Woodpile.Props.C07P.dec_once_never_panics",
     "Woodpile.Props.C07P.dec_call_never_panics",
+    "Woodpile.Props.C07P.dec_object_call_never_panics",
     "Woodpile.Props.C07P.dec_session_never_panics",
     "Woodpile.Props.C07P.dec_calls_reachable",
     "Woodpile.Props.C07P.dec_after_error_is_fresh",
